@@ -175,6 +175,9 @@ def gen_jobs(ck):
                 ins.append(["sx", [0], [], []])
                 c["meas"], _ = H.add_measures(rng, ins, c["labels"]); c["circ"] = {"nphys": n, "nclbits": n, "instrs": ins}
             jobs.append(dict(c, fam="seq_real", cls=cls, gates="standard", shots=S, parallel=False, npseed=rng.randrange(2 ** 31)))
+            if S == 16:   # the initial state in single precision / as complex128: the mean is still accumulated in double precision
+                for dt in ("c64", "f32", "c128"):
+                    jobs.append(dict(c, fam="seq_real", cls=cls, gates="standard", shots=S, parallel=False, npseed=rng.randrange(2 ** 31), psi_dtype=dt))
             if S == 3:    # a barely noisy gate set: the mean's total is 1 - 1e-6 .. 1 - 1e-9, the result must still be the NORMALISED mean, bit for bit
                 jobs.append(dict(c, fam="seq_real", cls=cls, gates="weak", shots=S, parallel=False, npseed=rng.randrange(2 ** 31)))
     # pool double: adversarial schedules
